@@ -664,6 +664,18 @@ static void run_exact(Tape &t, CaseCtx &ctx, const ModeDesc &md) {
     mode += "_nodij";
   int n = 2 + (int)t.pick(3);
   int B = 1 + (int)t.pick(4);
+  // (tail choices) relational emphasis, for half of the cases of a relational language: four
+  // variables, two-variable shapes preferred in assume, more meets -- closure after a meet is
+  // where long alternating paths through both operands matter
+  const unsigned remph = t.tail_u8();
+  const bool rel_mode = lang != L_ITV && (remph & 1);
+  if (rel_mode) {
+    if (remph & 2)
+      n = MAXV;
+    if (remph & 4)
+      B = 3 + (int)((remph >> 3) & 1);
+    R().cls("relational_emphasis");
+  }
   Geo g(n, B, lang);
   static const uint64_t starts[] = {1, 2, 7, 64, 255, 1000, 65535, 1u << 20};
   vfac_t vfac((ikos::index_t)starts[t.pick(8)]);
@@ -840,6 +852,8 @@ static void run_exact(Tape &t, CaseCtx &ctx, const ModeDesc &md) {
   for (unsigned step = 0; step < nsteps; step++) {
     int i = target_tbl[t.pick(8)];
     unsigned op = t.pick(12);
+    if (rel_mode && step >= 2 && (op == 10 || op == 11) && (t.tail_u8() & 1))
+      op = 7; // meet instead of copy / normalize
     RatOct ref;
     const RatOct *refp = nullptr;
     const char *opname = "assume";
@@ -857,6 +871,15 @@ static void run_exact(Tape &t, CaseCtx &ctx, const ModeDesc &md) {
       for (unsigned c = 0; c < ncs; c++) {
         C cc;
         cc.s = (int)t.pick((unsigned)g.sh.size());
+        if (rel_mode && g.sh[cc.s].nv == 1 && (t.tail_u8() & 3) != 0) {
+          // a two-variable shape instead (same first variable when there is one)
+          std::vector<int> two;
+          for (int q = 0; q < (int)g.sh.size(); q++)
+            if (g.sh[q].nv == 2)
+              two.push_back(q);
+          if (!two.empty())
+            cc.s = two[t.tail_u8() % two.size()];
+        }
         cc.k = (int)t.small_int((unsigned)(2 * B));
         cc.form = t.pick(8); // 0..4 inequality forms, 5 equality, 6,7 plain
         cs.push_back(cc);
